@@ -248,6 +248,9 @@ func checkC09(p *Prog, l *Ledger) {
 		}
 	}
 	checkExtents(p, l, g, "C09/S7-extents")
+	// "each produce a diagnostic": the reporter the scanner calls writes the diagnostic and raises the flag on every path
+	// (rule shared with C08; a reporter that suppresses repeats drops lexical errors silently)
+	l.As(map[string]string{"C08/S4-flagged": "C09/S2-diagnostic-emitted"}, func() { checkErrorOrigin(p, l, nil) })
 	checkNumberScanner(p, l, "C09/S7-extents/number-shape", "C09/S2-number-token")
 	checkMunchTable(p, l, g)
 	checkKeywords(p, l, g)
